@@ -24,6 +24,14 @@ Definition fac_ok (A U V : mat T) : Prop :=
   mr U = mr A /\ mc V = mc A /\ mc U = mr V /\
   forall i j, (i < mr A)%nat -> (j < mc A)%nat -> bsum K (mc U) (fun c => mget U i c * mget V c j) = mget A i j.
 
+(* the contract is satisfiable in every ring: A = A * Id *)
+Lemma fac_ok_id A : fac_ok A A (mid K (mc A)).
+Proof.
+  unfold fac_ok. repeat split; auto. intros i j Hi Hj. rewrite (bsum_single K Rth (mc A) j); auto.
+  - rewrite (mget_mid K), Nat.eqb_refl by auto. ring.
+  - intros c Hc Hne. rewrite (mget_mid K) by auto. destruct (Nat.eqb_spec c j); [contradiction|ring].
+Qed.
+
 (* ---- small facts ---- *)
 Lemma unbits_snoc l j : unbits_le (l ++ [j]) = (unbits_le l + 2 ^ length l * j)%nat.
 Proof. induction l as [|b l IH]; cbn [app unbits_le length Nat.pow]; [lia|]. rewrite IH. lia. Qed.
@@ -287,5 +295,65 @@ Proof.
   rewrite <- !bsum_mul_r by auto. apply bsum_ext; intros a Ha. ring.
 Qed.
 End CoreConv.
+
+(* ---------------- the whole tensor ---------------- *)
+Section TensorConv.
+Variable msvd2 : nat -> nat -> mat T -> mat T * mat T.
+Hypothesis Hsvd2 : forall k c A, fac_ok A (fst (msvd2 k c A)) (snd (msvd2 k c A)).
+
+Lemma tt_conv_run q : forall (Y : list (core T)) k0 r rl,
+  chain r Y rl -> Forall (fun G => cn G = 2 ^ S q /\ 0 < cr1 G)%nat Y ->
+  exists Zs, sequence (mapi_from k0 (fun k G => core_tt_to_qtt K (msvd2 k) G) Y) = Ok Zs /\
+    length (concat Zs) = (length Y * S q)%nat /\ chain r (concat Zs) rl /\
+    Forall (fun Q => cn Q = 2%nat) (concat Zs) /\
+    (forall rmax, (forall k c B, mc (fst (msvd2 k c B)) <= rmax)%nat ->
+       Forall (fun Zc => Forall (fun Q => cr1 Q <= rmax)%nat (tl Zc)) Zs) /\
+    Forall2 (fun G Zc => length Zc = S q /\ chain (cr1 G) Zc (cr2 G)) Y Zs /\
+    forall v idx, length v = r -> length idx = length Y -> Forall (fun i => i < 2 ^ S q)%nat idx ->
+      run v (concat Zs) (flat_map (bits_le (S q)) idx) = run v Y idx.
+Proof.
+  induction Y as [|G Y IH]; intros k0 r rl Hc HF.
+  - exists []. cbn [mapi_from sequence concat length chain]. repeat split; auto; try constructor.
+  - cbn [chain] in Hc. destruct Hc as [Hr Hc]. inversion HF as [|? ? [Hn Hpos] HF']; subst.
+    destruct (core_tt_to_qtt_spec (msvd2 k0) (Hsvd2 k0) G q Hn Hpos) as (Zc & EZ & LZ & CZ & TZ & RZ & DZ).
+    destruct (IH (S k0) (cr2 G) rl Hc HF') as (Zs & ES & LS & CS & TS & RS & BS & DS).
+    exists (Zc :: Zs). cbn [mapi_from sequence rbind]. rewrite EZ. cbn [rbind]. rewrite ES. cbn [rbind].
+    split; [reflexivity|]. cbn [concat].
+    split; [rewrite app_length, LZ, LS; cbn [length]; lia|].
+    split; [apply chain_app; exists (cr2 G); split; assumption|].
+    split; [apply Forall_app; split; assumption|].
+    split; [intros rmax Hcap; constructor; [apply RZ; intros; apply Hcap | apply RS; exact Hcap]|].
+    split.
+    { constructor; [|exact BS]. split; assumption. }
+    intros v idx Lv Li Hi. destruct idx as [|i idx]; [discriminate|]. inversion Hi; subst.
+    cbn [flat_map Chain.run]. rewrite run_app by (rewrite bits_le_length; lia).
+    rewrite <- DZ by auto. apply DS; auto. apply vstep_length.
+Qed.
+
+Theorem tt_to_qtt_denote q Y idx : chain 1 Y 1 -> Forall (fun G => cn G = 2 ^ S q /\ 0 < cr1 G)%nat Y ->
+  length idx = length Y -> Forall (fun i => i < 2 ^ S q)%nat idx ->
+  exists Z, tt_to_qtt K msvd2 Y = Ok Z /\ length Z = (length Y * S q)%nat /\ chain 1 Z 1 /\
+    Forall (fun Q => cn Q = 2%nat) Z /\ get Z (flat_map (bits_le (S q)) idx) = get Y idx.
+Proof.
+  intros Hc HF Li Hi. destruct (tt_conv_run q Y O 1%nat 1%nat Hc HF) as (Zs & ES & LS & CS & TS & _ & _ & DS).
+  exists (concat Zs). unfold tt_to_qtt. rewrite ES. cbn [rmap]. repeat split; auto.
+  unfold Chain.get. f_equal. apply DS; auto.
+Qed.
+
+(* bonds: between modes the TT-ranks are kept; inside a mode every bond is an inner size of a factorisation *)
+Theorem tt_to_qtt_ranks q Y rmax : chain 1 Y 1 -> Forall (fun G => cn G = 2 ^ S q /\ 0 < cr1 G)%nat Y ->
+  (forall k c B, mc (fst (msvd2 k c B)) <= rmax)%nat ->
+  exists Zs, tt_to_qtt K msvd2 Y = Ok (concat Zs) /\
+    Forall2 (fun G Zc => length Zc = S q /\ chain (cr1 G) Zc (cr2 G)) Y Zs /\
+    Forall (fun Zc => Forall (fun Q => cr1 Q <= rmax)%nat (tl Zc)) Zs.
+Proof.
+  intros Hc HF Hcap. destruct (tt_conv_run q Y O 1%nat 1%nat Hc HF) as (Zs & ES & _ & _ & _ & RS & BS & _).
+  exists Zs. unfold tt_to_qtt. rewrite ES. cbn [rmap]. split; [reflexivity|]. split; [exact BS|]. apply RS. exact Hcap.
+Qed.
+
+(* a mode size that is not a power of two is rejected before any factorisation *)
+Theorem core_tt_to_qtt_rejects sv G : (forall q, cn G <> 2 ^ q)%nat -> core_tt_to_qtt K sv G = Err ValueError.
+Proof. intros H. unfold core_tt_to_qtt. now rewrite (log2_exact_none _ H). Qed.
+End TensorConv.
 
 End QttP2.
